@@ -245,8 +245,8 @@ Definition lit_named (lo : value -> ty -> bool) (S : tsdoc) (v : value) (n : ide
   | Some (TDInput _ _ _ _ fields _) =>
       match v with
       | VObject _ fs =>
-          lit_fields lo fields fs
-          && nodup_str (map (fun kv => iname (fst kv)) fs)                          (* Input Object Field Uniqueness *)
+          lit_fields lo fields fs      (* every supplied field is defined and has its type; Input Object Field
+                                          Uniqueness (5.6.3) is a separate rule, not among the implemented ones *)
           && forallb (fun d => negb (required_input d)
                                || mem (iname (iv_name d)) (map (fun kv => iname (fst kv)) fs)) fields  (* Required Fields *)
       | _ => false
@@ -321,9 +321,23 @@ Record var_use := mkUse { u_name : str; u_type : option ty; u_loc_default : bool
 
 Fixpoint unwrap_lists (t : ty) : ty := match t with TNonNull i | TList _ i => unwrap_lists i | _ => t end.
 
+Definition sp_builtin_scalar (name : str) : bool :=
+  str_eqb name (s "Int") || str_eqb name (s "Float") || str_eqb name (s "String") || str_eqb name (s "Boolean")
+  || str_eqb name (s "ID").
+(** the named type is a custom scalar: any literal is a value of it, and the variables inside have no typed position *)
+Definition custom_scalar (S : tsdoc) (t : ty) : bool :=
+  match t with
+  | TNamed n => match sp_type S (iname n) with
+                | Some (TDScalar _ _ name _ _) => negb (sp_builtin_scalar (iname name))
+                | _ => false
+                end
+  | _ => false
+  end.
+
 (** [deep = true]: every variable written anywhere inside the value (what the rule "All Variable Uses
-    Defined" ranges over). [deep = false]: only the uses at positions to which input coercion assigns a
-    type, i.e. not those inside a literal given for a scalar type or for an undefined input field. *)
+    Defined" ranges over). [deep = false]: the uses at positions to which input coercion assigns a type, and
+    (untyped) those inside a literal given for a custom scalar — not those inside a literal that cannot have the
+    expected type anyway (a list for Int, an object for an enum, a field the input object does not define). *)
 Fixpoint var_uses (deep : bool) (S : tsdoc) (v : value) (t : option ty) (locdef : bool) : list var_use :=
   match v with
   | VVar n _ => [mkUse n t locdef]
@@ -332,8 +346,10 @@ Fixpoint var_uses (deep : bool) (S : tsdoc) (v : value) (t : option ty) (locdef 
                   | Some t' => match strip_nonnull t' with TList _ i => Some i | _ => None end
                   | None => None
                   end in
-      match item, deep with
+      let custom := match t with Some t' => custom_scalar S (strip_nonnull t') | None => false end in
+      match item, deep || custom with
       | None, false => []
+      | None, true => flat_map (fun e => var_uses true S e None false) vs
       | _, _ => flat_map (fun e => var_uses deep S e item false) vs
       end
   | VObject _ fs =>
@@ -347,13 +363,14 @@ Fixpoint var_uses (deep : bool) (S : tsdoc) (v : value) (t : option ty) (locdef 
                                end
                   | None => []
                   end in
+      let custom := match t with Some t' => custom_scalar S (unwrap_lists t') | None => false end in
       (fix go (fs : list (ident * value)) : list var_use :=
          match fs with
          | [] => []
          | (k, fv) :: r =>
              match find (fun d => str_eqb (iname (iv_name d)) (iname k)) defs with
              | Some d => var_uses deep S fv (Some (iv_type d)) (match iv_default d with Some _ => true | None => false end)
-             | None => if deep then var_uses deep S fv None false else []
+             | None => if deep || custom then var_uses true S fv None false else []
              end ++ go r
          end) fs
   | _ => []
@@ -379,25 +396,15 @@ Definition arg_sites (S : tsdoc) (x : site) : list (list (ident * value) * list 
   end.
 
 (** every variable use of a site; arguments of undefined fields / directives / arguments have untyped positions *)
-(** [deep = true]: the variables in every supplied argument. [deep = false]: per argument *definition*, the
-    variables in the value supplied for it (the first, should the name be given twice — Argument Uniqueness is
-    not among the implemented rules). *)
+(** [deep = true]: the variables in every supplied argument. [deep = false]: those in the arguments that are defined. *)
 Definition has_default (d : inputvaldef) : bool := match iv_default d with Some _ => true | None => false end.
-Definition arg_for (d : inputvaldef) (args : list (ident * value)) : option (ident * value) :=
-  find (fun kv => str_eqb (iname (iv_name d)) (iname (fst kv))) args.
 
 Definition args_var_uses (deep : bool) (S : tsdoc) (args : list (ident * value)) (defs : list inputvaldef) : list var_use :=
-  if deep then
-    flat_map (fun kv =>
-      match find (fun d => str_eqb (iname (iv_name d)) (iname (fst kv))) defs with
-      | Some d => var_uses true S (snd kv) (Some (iv_type d)) (has_default d)
-      | None => var_uses true S (snd kv) None false
-      end) args
-  else
-    flat_map (fun d => match arg_for d args with
-                       | Some kv => var_uses false S (snd kv) (Some (iv_type d)) (has_default d)
-                       | None => []
-                       end) defs.
+  flat_map (fun kv =>
+    match find (fun d => str_eqb (iname (iv_name d)) (iname (fst kv))) defs with
+    | Some d => var_uses deep S (snd kv) (Some (iv_type d)) (has_default d)
+    | None => if deep then var_uses true S (snd kv) None false else []
+    end) args.
 
 Definition site_var_uses (deep : bool) (S : tsdoc) (x : site) : list var_use :=
   match x with
@@ -436,9 +443,9 @@ Definition applies (S : tsdoc) (p c : typedef) : bool :=
   negb (is_composite p) || negb (is_composite c) || str_eqb (type_name p) (type_name c)
   || overlap (possible_types S p) (possible_types S c).
 
-(** per argument definition: the value supplied for it has the declared type *)
-Definition literal_types_vis (S : tsdoc) (a : list (ident * value) * list inputvaldef) : bool :=
-  forallb (fun d => match arg_for d (fst a) with Some kv => lit_ok S (snd kv) (iv_type d) | None => true end) (snd a).
+(** (until /repo commit 7d19234 only the first value given for an argument was type-checked, and the reading on the
+    visible sites was per argument definition; now both readings judge every supplied value) *)
+Definition literal_types_vis (S : tsdoc) (a : list (ident * value) * list inputvaldef) : bool := literal_types_ok S a.
 
 (** [vis]: the reading on the visible sites (see below) judges the value supplied *for each defined argument*;
     the full reading judges every supplied value *)
@@ -683,9 +690,47 @@ Definition vis_doc_sites (S : tsdoc) (D : opdoc) : list (opdef * list site) :=
 
 Definition rule_ok_vis (S : tsdoc) (D : opdoc) (r : rule) : bool := rule_ok_vis_on S D (vis_doc_sites S D) r.
 
+(** ** Fragment definitions on their own (since /repo commit c67e45e every fragment definition is validated, if not where
+    it is spread from an operation then as a root of its own): the sites of a fragment definition walked from its type
+    condition, following spreads, with the fragment itself on the path. The site rules and the cycle rule are read on
+    them; the variable rules are not (variables belong to the operations that spread a fragment). *)
+Definition frag_root_sites (S : tsdoc) (D : opdoc) (f : fragdef) : list site :=
+  StDirs (s "FRAGMENT_DEFINITION") (fr_dirs f) ::
+  match sp_type S (iname (fr_cond f)) with
+  | Some t =>
+      if is_composite t
+      then flat_map (vsites_sel S (vis_enter (Datatypes.S (length (doc_fragdefs D))) S D [iname (fr_name f)]) (Some t))
+                    (selset_sels (fr_sel f))
+      else []
+  | None => []
+  end.
+
+Definition rule_ok_roots (S : tsdoc) (D : opdoc) (r : rule) : bool :=
+  match r with
+  | R_fields_exist | R_leaf_vs_composite | R_args_defined | R_required_args | R_literal_types | R_fragment_targets
+  | R_spreads_defined | R_spread_possible | R_directives_defined | R_directives_location | R_directives_unique =>
+      forallb (fun f => forallb (site_ok true S D r) (frag_root_sites S D f)) (doc_fragdefs D)
+  | R_no_cycles =>
+      forallb (fun f => forallb (fun x => match x with StCycle _ => false | _ => true end) (frag_root_sites S D f)) (doc_fragdefs D)
+  | _ => true
+  end.
+
+(** Fragments Must Be Used (5.5.1.4) — not among the implemented rules; valid documents satisfy it *)
+Definition every_fragment_spread (D : opdoc) : bool :=
+  forallb (fun f => existsb (fun o => mem (iname (fr_name f)) (reachable_from D (op_sel o))) (doc_ops D)) (doc_fragdefs D).
+
 (** * The part of schema validity the theorems use (the schema "passed check"): argument definitions of
     one field / directive and the fields of one input object have pairwise distinct names (3.6, 3.10, 3.13) *)
-Definition names_distinct (l : list inputvaldef) : bool := nodup_str (map (fun d => iname (iv_name d)) l).
+(** a type as the grammar produces it: no `T!!` *)
+Fixpoint ty_wf (t : ty) : bool :=
+  match t with
+  | TNamed _ => true
+  | TList _ i => ty_wf i
+  | TNonNull (TNonNull _) => false
+  | TNonNull i => ty_wf i
+  end.
+Definition names_distinct (l : list inputvaldef) : bool :=
+  nodup_str (map (fun d => iname (iv_name d)) l) && forallb (fun d => ty_wf (iv_type d)) l.
 Definition schema_wf (S : tsdoc) : bool :=
   forallb (fun d =>
     match d with
@@ -745,19 +790,10 @@ Definition site_syntax_ok (x : site) : bool :=
   | _ => true
   end.
 
-(** IsVariableUsageAllowed without the hasLocationDefaultValue clause (which the implementation lacks) *)
-Definition var_usage_strict_on (S : tsdoc) (o : opdef) (sites : list site) : bool :=
-  forallb (fun x => forallb (fun u => match find_var o (u_name u), u_type u with
-                                      | Some vd, Some t => variable_usage_allowed vd t false
-                                      | _, _ => true
-                                      end) (site_var_uses false S x)) sites.
-
-(** what the completeness theorem asks of a document beyond the rules: variables are usable without relying on a
-    default of the position (the clause the implementation lacks), written argument lists are non-empty (grammar),
+(** what the completeness theorem asks of a document beyond the rules: written argument lists are non-empty (grammar),
     root operation types are object types *)
 Definition doc_guard (S : tsdoc) (D : opdoc) : bool :=
-  forallb (fun o => var_usage_strict_on S o (vis_op_sites S D o)
-                    && forallb site_syntax_ok (vis_op_sites S D o ++ op_const_sites o)
+  forallb (fun o => forallb site_syntax_ok (vis_op_sites S D o ++ op_const_sites o)
                     && match sp_root S (op_type o) with Some t => is_object t | None => false end) (doc_ops D).
 
 (** everything the completeness theorem asks of a document, read on the visible sites *)
